@@ -51,7 +51,7 @@ TPickLimit == /\ pc = "pick" /\ ~IsCram /\ IsEvent("PickLimit") /\ E.index = k -
               /\ isGlobal' = E.is_global
               /\ ((lim' = None) <=> (E.chosen_ms = -1))
               /\ ChosenOK
-              /\ E.per_test_ms = (IF CurTc.t = None THEN -1 ELSE 1000 * CurTc.t)
+              /\ E.per_test_ms = (IF OwnT(sc, d, CurTc) = None THEN -1 ELSE 1000 * OwnT(sc, d, CurTc))
               /\ ((Left = None) <=> (E.left_ms = -1))
 TCramPick  == /\ pc = "pick" /\ IsCram /\ Silent /\ PickLimit
 TRun       == /\ pc = "run" /\ Silent /\ RunTest
